@@ -1,5 +1,62 @@
 package main
 
+import (
+	"fmt"
+	"go/ast"
+	"go/token"
+)
+
+// c19FlagAssigns: every assignment to the local boolean `flag` inside `fn`, in source order, classified by its right-hand
+// side: "false" / "true" (the literals), "or-self" (flag || …, … || flag), "other" (anything else: the flag takes the
+// value of an expression, so an earlier `true` can be lost).
+func (g *gen) c19FlagAssigns(group, pkgPath, fn, flag, lean string) {
+	_, fd := g.findFunc(pkgPath, fn)
+	if fd == nil {
+		return
+	}
+	isFlag := func(e ast.Expr) bool {
+		id, ok := e.(*ast.Ident)
+		return ok && id.Name == flag
+	}
+	var seq []string
+	ast.Inspect(fd.Body, func(n ast.Node) bool {
+		as, ok := n.(*ast.AssignStmt)
+		if !ok {
+			return true
+		}
+		for i, l := range as.Lhs {
+			if !isFlag(l) || i >= len(as.Rhs) {
+				continue
+			}
+			kind := "other"
+			switch r := as.Rhs[i].(type) {
+			case *ast.Ident:
+				if r.Name == "true" || r.Name == "false" {
+					kind = r.Name
+				}
+			case *ast.BinaryExpr:
+				if r.Op == token.LOR && (isFlag(r.X) || isFlag(r.Y)) {
+					kind = "or-self"
+				}
+			}
+			if as.Tok != token.ASSIGN && as.Tok != token.DEFINE {
+				kind = "other"
+			}
+			seq = append(seq, kind)
+		}
+		return true
+	})
+	b := g.out(group)
+	fmt.Fprintf(b, "/-- what is assigned to `%s` inside `%s.%s` (%s), in source order -/\ndef %s : List String := [", flag, pkgPath, fn, g.pos(fd.Pos()), lean)
+	for i, s := range seq {
+		if i > 0 {
+			b.WriteString(", ")
+		}
+		b.WriteString(leanStr(s))
+	}
+	b.WriteString("]\n\n")
+}
+
 func init() {
 	register([]string{
 		"pkg/controllers/provisioning",
@@ -26,5 +83,11 @@ func init() {
 		// the templates are evaluated through parallelizeUntil; both publication sites take the mutex
 		g.callSeq(grp, "pkg/controllers/provisioning/scheduling", "Scheduler.addToNewNodeClaim", "addToNewNodeClaimCalls",
 			[]string{"parallelizeUntil", "Lock"})
+		// NewNodeClaimTemplate: the injected labels (nodepool name, NodeClass) are merged into the template's labels
+		// (lo.Assign, after the annotations' lo.Assign) BEFORE the label requirements are derived from them
+		g.callSeq(grp, "pkg/controllers/provisioning/scheduling", "NewNodeClaimTemplate", "newNodeClaimTemplateCalls",
+			[]string{"Assign", "NewLabelRequirements"})
+		// NewScheduler: the flag "some NodePool has a PreferNoSchedule taint" starts false and is only ever raised
+		g.c19FlagAssigns(grp, "pkg/controllers/provisioning/scheduling", "NewScheduler", "toleratePreferNoSchedule", "tolerateFlagAssigns")
 	})
 }
